@@ -72,18 +72,30 @@ def run_history(chunks, finaliser='finalise', check_prefix=False):
 
 
 def judge(out, total):
-    expected = refvbs.block(POS[:total])
+    data = POS[:total] if total <= TOTAL else big_pos(total)
+    expected = refvbs.block(data)
     if out == expected or out == expected + FILLBLOCK:
         return None
-    why = refvbs.check_blocked(out, POS[:total])
+    why = refvbs.check_blocked(out, data)
     if why is None:
         raise HarnessError('C04 oracles disagree with each other')
     return why
 
 
+_BIG = {}
+
+
+def big_pos(total):
+    """position-coded data for the large one-shot cases (built once per process)"""
+    if 'd' not in _BIG or len(_BIG['d']) < total:
+        n = max(total, 1100000)
+        _BIG['d'] = b''.join(i.to_bytes(3, 'big') for i in range(1, n // 3 + 2))[:n]
+    return _BIG['d'][:total]
+
+
 def oneshot(total):
     o = io.BytesIO()
-    mciipm.block_1014(io.BytesIO(POS[:total]), o)
+    mciipm.block_1014(io.BytesIO(POS[:total] if total <= TOTAL else big_pos(total)), o)
     return o.getvalue()
 
 
@@ -151,7 +163,45 @@ def sweep_oneshot(ctx, lo, hi):
         if res:
             ctx.report(res[0], {'oneshot': total}, res[1])
     ctx.bulk(n, nontrivial_distinct=sum(1 for t in range(lo, hi) if t >= 1012), label='oneshot')
-    ctx.enumerated('block_1014 on every data length 0..3100')
+    ctx.enumerated(f'block_1014 on every data length {lo}..{hi - 1}')
+
+
+def large_sizes(full):
+    s = set()
+    for k in list(range(1, 140)) + [255, 256, 257, 511, 512, 513, 1000, 1024]:
+        for unit in (1012, 1014, 1024):
+            for d in (-1, 0, 1):
+                s.add(k * unit + d)
+    s |= {65535, 65536, 65537, 131072, 200000, 1 << 20, (1 << 20) + 1}
+    if not full:
+        s = {x for x in s if x <= 300000}
+    return sorted(x for x in s if x > 3100)
+
+
+def oneshot_large(ctx, full):
+    """the one-shot function on long inputs: sizes around multiples of 1012 / 1014 / 1024 up to 1 MiB, and the same data
+    through the streaming blocker in a few chunkings (the two must agree up to one all-fill block)"""
+    n = 0
+    for total in large_sizes(full):
+        n += 1
+        res = check_oneshot(total)
+        if res:
+            ctx.report(res[0], {'oneshot': total}, res[1])
+        if n % 9 == 0:
+            data = big_pos(total)
+            for chunk in (4096, 65536, total):
+                f = KeepIO()
+                b = mciipm.Block1014(f)
+                for i in range(0, total, chunk):
+                    b.write(data[i:i + chunk])
+                b.finalise()
+                why = judge(f.getvalue(), total)
+                n += 1
+                if why:
+                    ctx.report('malformed-large:' + _cls(why), {'stream_large': total, 'chunk': chunk}, f'{total} bytes written in chunks of {chunk}: {why}')
+    ctx.bulk(n, nontrivial_distinct=n, label='oneshot-large')
+    ctx.enumerated('block_1014 (and sampled streaming chunkings) on data lengths k*1012+d, k*1014+d, k*1024+d for k to 139 and powers of two, d in -1..1, up to '
+                   + ('1 MiB' if full else '300 kB'))
 
 
 OP = st.one_of(
@@ -202,6 +252,7 @@ def tasks(tier, seed):
     for lo in range(0, 1013, step):
         t.append(('sweep', dict(states=list(range(lo, min(lo + step, 1013))), full=full)))
     t.append(('sweep_oneshot', dict(lo=0, hi=3101)))
+    t.append(('oneshot_large', dict(full=full)))
     for i in range(4 if not full else 16):
         t.append(('hyp_histories', dict(n=250 if not full else 1500)))
     return t
@@ -210,4 +261,14 @@ def tasks(tier, seed):
 def replay(case):
     if 'oneshot' in case:
         return check_oneshot(case['oneshot'])
+    if 'stream_large' in case:
+        total, chunk = case['stream_large'], case['chunk']
+        data = big_pos(total)
+        f = KeepIO()
+        b = mciipm.Block1014(f)
+        for i in range(0, total, chunk):
+            b.write(data[i:i + chunk])
+        b.finalise()
+        why = judge(f.getvalue(), total)
+        return ('malformed-large:' + _cls(why), why) if why else None
     return check_case(list(case['chunks']), case.get('finaliser', 'finalise'), check_prefix=case.get('prefix', False))
